@@ -6,7 +6,7 @@ from harness import c13
 LEVEL = 'model_checking'
 MANIFEST = {'category': 'model_checking', 'engine': 'symx+z3',
  'technique': 'symbolic execution of the real _split_command / parse_args / _select_mode / run_gdb on argument vectors whose words have symbolic characters (SWord proxies: every comparison is a z3 constraint over code points) or are opaque tokens',
- 'text': 'For every argument vector of <= 3 (quick) / 4 (thorough) words after the program name, each word either one of the marker spellings or a word of 0..4 (5) arbitrary printable characters: z3 proves the first marker (own word, or last letter of a single-dash cluster) splits the vector - left part unchanged (cluster minus its last letter), right part the identical word objects in order, command id r/g - and that without a marker nothing is forwarded. _select_mode returns a mode iff exactly one of run / gdb / load / pipe / in-GDB is requested (all 48 combinations). parse_args forwards symbolic words after the marker untouched and reports malformed -f/-b matchers. run_gdb: each word of wayland_debug_args reaches the `python ...` command only through repr() (opaque-token flow) and the forwarded words follow `gdb -ex <cmd>` verbatim; the literal decodes back on a pool of hostile words. Well-formed -f/-b values (also those starting with @ * ! [ .) become the matcher the text denotes.',
+ 'text': 'For every argument vector of <= 3 (quick) / 4 (thorough) words after the program name, each word either one of the marker spellings or a word of 0..4 (5) arbitrary printable characters: z3 proves the first marker (own word, or last letter of a single-dash cluster) splits the vector - left part unchanged (cluster minus its last letter), right part the identical word objects in order, command id r/g - and that without a marker nothing is forwarded. _select_mode returns a mode iff exactly one of run / gdb / load / pipe / in-GDB is requested (all 48 combinations). parse_args forwards symbolic words after the marker untouched and reports malformed -f/-b matchers. run_gdb: each word of wayland_debug_args reaches the `python ...` command only through repr() (opaque-token flow) and the forwarded words follow `gdb -ex <cmd>` verbatim; the literal decodes back on a pool of hostile words. Well-formed -f/-b values (also those starting with @ * ! [ .) become the matcher the text denotes. main.py executed as __main__ with the real sys.argv handling: verbosity / colour / mode come from the words before the marker only, a second mode (-l, also with an empty name, -p) runs nothing, forwarded words reach the runner verbatim.',
  'note': 'Trusted: z3, lib/symx.py (SWord string proxy), Python\'s guarantee that eval(repr(s)) == s for str. argparse itself is outside (it only sees the left part, which is shown unchanged). Clusters that contain r/g before the last letter raise a usage error: don\'t-care.'}
 EXPLANATION = MANIFEST['text']
 ASSUMPTIONS = ['words are printable ASCII (32..126) in the symbolic part', 'eval(repr(s)) == s for every str (language guarantee)']
